@@ -65,6 +65,29 @@ func mix(a, b uint64) uint64 {
 // the value stored under (key, revision) is a function of both: a revision identifies the content
 func valueOf(k, r uint64) uint64 { return mix(k, r) % 8 }
 
+// revEmpty stands for the EMPTY revision string ""; in Coq it is 2^64 (Model.rev_empty).
+const revEmpty = ^uint64(0)
+
+func revStr(r uint64) string {
+	if r == revEmpty {
+		return ""
+	}
+	return strconv.FormatUint(r, 10)
+}
+func revCoq(r uint64) string {
+	if r == revEmpty {
+		return "18446744073709551616"
+	}
+	return strconv.FormatUint(r, 10)
+}
+func revParse(s string) uint64 {
+	if s == "" {
+		return revEmpty
+	}
+	r, _ := strconv.ParseUint(s, 10, 64)
+	return r
+}
+
 // ---------------------------------------------------------------- fake client
 
 var kinds = []string{apiv3.KindIPPool, apiv3.KindBGPPeer, apiv3.KindTier}
@@ -142,9 +165,9 @@ func (f *fake) List(ctx context.Context, l model.ListInterface, revision string)
 	if r.listErr != nil {
 		return nil, r.listErr
 	}
-	out := &model.KVPairList{Revision: strconv.FormatUint(r.lrev, 10)}
+	out := &model.KVPairList{Revision: revStr(r.lrev)}
 	for _, it := range r.items {
-		out.KVPairs = append(out.KVPairs, &model.KVPair{Key: mkKey(c, it.k), Value: int(it.v), Revision: strconv.FormatUint(it.r, 10)})
+		out.KVPairs = append(out.KVPairs, &model.KVPair{Key: mkKey(c, it.k), Value: int(it.v), Revision: revStr(it.r)})
 	}
 	return out, nil
 }
@@ -271,7 +294,7 @@ func (r *recorder) OnUpdates(us []api.Update) {
 			r.add(outEv{coq: "OUnknown"})
 			continue
 		}
-		rev, _ := strconv.ParseUint(u.Revision, 10, 64)
+		rev := revParse(u.Revision)
 		switch u.UpdateType {
 		case api.UpdateTypeKVNew, api.UpdateTypeKVUpdated:
 			v, ok := u.Value.(int)
@@ -283,7 +306,7 @@ func (r *recorder) OnUpdates(us []api.Update) {
 			if u.UpdateType == api.UpdateTypeKVUpdated {
 				kind = "UMod"
 			}
-			r.add(outEv{coq: fmt.Sprintf("OUpd %d (%s %d %d %d)", c, kind, k, rev, v)})
+			r.add(outEv{coq: fmt.Sprintf("OUpd %d (%s %d %s %d)", c, kind, k, revCoq(rev), v)})
 		case api.UpdateTypeKVDeleted:
 			if u.Value != nil {
 				r.add(outEv{coq: "OUnknown"})
@@ -373,18 +396,18 @@ func (s *store) mutate(r *rng, c int) (api.WatchEvent, string) {
 		if old, ok := s.m[k]; ok {
 			it := item{k, s.rev, valueOf(k, s.rev)}
 			s.m[k] = it
-			return modEv(c, old, it), fmt.Sprintf("(REvent (EvMod (mkItem %d %d %d)))", it.k, it.r, it.v)
+			return modEv(c, old, it), "(REvent (EvMod ("+itemCoq(it)+")))"
 		}
 		it := item{k, s.rev, valueOf(k, s.rev)}
 		s.m[k] = it
-		return addEv(c, it), fmt.Sprintf("(REvent (EvAdd (mkItem %d %d %d)))", it.k, it.r, it.v)
+		return addEv(c, it), "(REvent (EvAdd ("+itemCoq(it)+")))"
 	}
 	k := ks[r.intn(len(ks))]
 	old := s.m[k]
 	if op < 7 {
 		it := item{k, s.rev, valueOf(k, s.rev)}
 		s.m[k] = it
-		return modEv(c, old, it), fmt.Sprintf("(REvent (EvMod (mkItem %d %d %d)))", it.k, it.r, it.v)
+		return modEv(c, old, it), "(REvent (EvMod ("+itemCoq(it)+")))"
 	}
 	delete(s.m, k)
 	// the deletion event carries the deleted object at the revision of the deletion
@@ -392,8 +415,9 @@ func (s *store) mutate(r *rng, c int) (api.WatchEvent, string) {
 }
 
 func kvp(c int, it item) *model.KVPair {
-	return &model.KVPair{Key: mkKey(c, it.k), Value: int(it.v), Revision: strconv.FormatUint(it.r, 10)}
+	return &model.KVPair{Key: mkKey(c, it.k), Value: int(it.v), Revision: revStr(it.r)}
 }
+func itemCoq(it item) string { return fmt.Sprintf("mkItem %d %s %d", it.k, revCoq(it.r), it.v) }
 func addEv(c int, it item) api.WatchEvent { return api.WatchEvent{Type: api.WatchAdded, New: kvp(c, it)} }
 func modEv(c int, old, it item) api.WatchEvent {
 	return api.WatchEvent{Type: api.WatchModified, Old: kvp(c, old), New: kvp(c, it)}
@@ -408,7 +432,7 @@ func tooLarge() error {
 func itemsCoq(items []item) string {
 	s := make([]string, len(items))
 	for i, it := range items {
-		s[i] = fmt.Sprintf("mkItem %d %d %d", it.k, it.r, it.v)
+		s[i] = itemCoq(it)
 	}
 	return "[" + strings.Join(s, "; ") + "]"
 }
@@ -435,21 +459,38 @@ func genList(r *rng, s *store, c int) *response {
 		if len(items) == 0 && r.pct(50) {
 			lrev = 0 // "no items and an empty/zero revision": the polling mode
 			tag = "list:empty-zero-rev"
+			if r.pct(50) {
+				lrev = revEmpty
+				tag = "list:empty-empty-rev"
+			}
+		} else if len(items) > 0 && r.pct(4) {
+			// items with a zero/empty revision: the code logs `BUG: List returned items ...` and panics
+			lrev = 0
+			if r.pct(50) {
+				lrev = revEmpty
+			}
+			tag = "list:items-with-zero-or-empty-rev"
 		}
-		return &response{items: items, lrev: lrev, coq: fmt.Sprintf("(RListOk %s %d)", itemsCoq(items), lrev), tag: tag}
+		return &response{items: items, lrev: lrev, coq: fmt.Sprintf("(RListOk %s %s)", itemsCoq(items), revCoq(lrev)), tag: tag}
 	case p < 72:
 		// arbitrary (stale / partial / duplicated) list
 		var items []item
 		for n := r.intn(5); n > 0; n-- {
 			k := uint64(r.intn(7))
 			rv := 1 + uint64(r.intn(int(s.rev)+3))
+			if r.pct(8) {
+				rv = revEmpty // an item without a revision
+			}
 			items = append(items, item{k, rv, valueOf(k, rv)})
 		}
 		lrev := 1 + uint64(r.intn(int(s.rev)+3))
 		if len(items) == 0 && r.pct(30) {
 			lrev = 0
+			if r.pct(50) {
+				lrev = revEmpty
+			}
 		}
-		return &response{items: items, lrev: lrev, coq: fmt.Sprintf("(RListOk %s %d)", itemsCoq(items), lrev), tag: "list:arbitrary"}
+		return &response{items: items, lrev: lrev, coq: fmt.Sprintf("(RListOk %s %s)", itemsCoq(items), revCoq(lrev)), tag: "list:arbitrary"}
 	case p < 78:
 		return &response{listErr: kerrors.NewNotFound(schema.GroupResource{Resource: "x"}, "x"), coq: "(RListErr LNotFound)", tag: "list:notfound"}
 	case p < 83:
@@ -512,20 +553,29 @@ func genEvent(r *rng, s *store, c int) *response {
 		case q == 0 && len(ks) > 0:
 			it := s.m[ks[r.intn(len(ks))]]
 			if r.pct(50) {
-				return &response{ev: addEv(c, it), coq: fmt.Sprintf("(REvent (EvAdd (mkItem %d %d %d)))", it.k, it.r, it.v), tag: "event:replay-same-revision"}
+				return &response{ev: addEv(c, it), coq: "(REvent (EvAdd ("+itemCoq(it)+")))", tag: "event:replay-same-revision"}
 			}
-			return &response{ev: modEv(c, it, it), coq: fmt.Sprintf("(REvent (EvMod (mkItem %d %d %d)))", it.k, it.r, it.v), tag: "event:replay-same-revision"}
+			return &response{ev: modEv(c, it, it), coq: "(REvent (EvMod ("+itemCoq(it)+")))", tag: "event:replay-same-revision"}
 		case q == 1:
 			k := uint64(r.intn(8))
 			rv := 1 + uint64(r.intn(int(s.rev)+2))
-			return &response{ev: delEv(c, item{k, rv, 0}), coq: fmt.Sprintf("(REvent (EvDel %d %d))", k, rv), tag: "event:arbitrary-delete"}
+			if r.pct(15) {
+				rv = revEmpty
+			}
+			return &response{ev: delEv(c, item{k, rv, 0}), coq: fmt.Sprintf("(REvent (EvDel %d %s))", k, revCoq(rv)), tag: "event:arbitrary-delete"}
 		case q == 2:
+			if r.pct(50) {
+				return &response{ev: api.WatchEvent{Type: api.WatchBookmark, New: &model.KVPair{Revision: ""}}, coq: "(REvent (EvBookmark " + revCoq(revEmpty) + "))", tag: "event:bookmark-empty"}
+			}
 			return &response{ev: api.WatchEvent{Type: api.WatchBookmark, New: &model.KVPair{Revision: "0"}}, coq: "(REvent (EvBookmark 0))", tag: "event:bookmark-zero"}
 		default:
 			k := uint64(r.intn(8))
 			rv := 1 + uint64(r.intn(int(s.rev)+2))
+			if r.pct(15) {
+				rv = revEmpty // an event without a revision: the next watch starts from "" (not "0", no resync)
+			}
 			it := item{k, rv, valueOf(k, rv)}
-			return &response{ev: addEv(c, it), coq: fmt.Sprintf("(REvent (EvAdd (mkItem %d %d %d)))", it.k, it.r, it.v), tag: "event:arbitrary-add"}
+			return &response{ev: addEv(c, it), coq: "(REvent (EvAdd ("+itemCoq(it)+")))", tag: "event:arbitrary-add"}
 		}
 	case p < 82:
 		return &response{ev: api.WatchEvent{Type: api.WatchError, Error: kerrors.NewResourceExpired("compacted")}, coq: "(REvent EvErrExpired)", tag: "event:error-expired"}
@@ -541,6 +591,27 @@ func genEvent(r *rng, s *store, c int) *response {
 		return &response{ev: api.WatchEvent{Type: api.WatchEventType("WEIRD")}, coq: "(REvent EvUnknown)", tag: "event:unknown-type"}
 	}
 }
+
+// ---------------------------------------------------------------- the deliberate panic
+
+// logrus fires hooks before Panic-level entries panic.  The hook reports the cache and parks the goroutine for
+// ever, so the panic is OBSERVED instead of killing the driver.
+type panicHook struct{ ch chan int }
+
+func (h *panicHook) Levels() []logrus.Level { return []logrus.Level{logrus.PanicLevel} }
+func (h *panicHook) Fire(e *logrus.Entry) error {
+	id := -1
+	if v, ok := e.Data["cacheID"].(int); ok {
+		id = v
+	}
+	if !strings.Contains(e.Message, "BUG: List returned items with empty/zero revision") {
+		id = -2 - id // some other panic
+	}
+	h.ch <- id
+	select {}
+}
+
+var panics = &panicHook{ch: make(chan int)}
 
 // ---------------------------------------------------------------- one case
 
@@ -587,10 +658,17 @@ func runCase(r *rng, long bool) line {
 	s.Start()
 
 	pending := make([]*request, ncaches)
+	panicked := -1
 	wait := func() request {
 		select {
 		case rq := <-f.reqs:
 			return rq
+		case id := <-panics.ch:
+			if id < 0 {
+				fatal("unexpected panic-level log")
+			}
+			panicked = id
+			return request{cache: id, kind: -1}
 		case <-time.After(60 * time.Second):
 			fatal("a watcher cache made no further request within 60s (deadlock or panic)")
 			panic("unreachable")
@@ -615,6 +693,7 @@ func runCase(r *rng, long bool) line {
 	pre := barrier()
 
 	var steps, sample []string
+	panicStep := "None"
 	tags := map[string]bool{fmt.Sprintf("caches:%d", ncaches): true}
 	var keyParts []string
 	sawInSync, resyncAfterSync, sawItems, sawTickErr := false, false, false, false
@@ -659,6 +738,15 @@ func runCase(r *rng, long bool) line {
 		if nr.cache != c {
 			fatal("request from a cache that was not released")
 		}
+		if panicked >= 0 {
+			outs := barrier()
+			panicStep = fmt.Sprintf("Some (St %d %v %s [%s])", c, rs.tick, rs.coq, strings.Join(outs, "; "))
+			keyParts = append(keyParts, "PANIC:"+rs.coq)
+			sample = append(sample, fmt.Sprintf("cache %d tick=%v %s -> %s, then PANIC (BUG: List returned items with empty/zero revision)", c, rs.tick, rs.coq, strings.Join(outs, ", ")))
+			tags[rs.tag] = true
+			tags["panic-observed"] = true
+			break
+		}
 		pending[c] = &nr
 		outs := barrier()
 		steps = append(steps, fmt.Sprintf("St %d %v %s [%s]", c, rs.tick, rs.coq, strings.Join(outs, "; ")))
@@ -696,17 +784,19 @@ func runCase(r *rng, long bool) line {
 	close(f.done)
 	stopped := make(chan struct{})
 	go func() { s.Stop(); close(stopped) }()
-	select {
-	case <-stopped:
-	case <-time.After(60 * time.Second):
-		fatal("Stop() did not return within 60s")
-	}
+	if panicked < 0 {
+		select {
+		case <-stopped:
+		case <-time.After(60 * time.Second):
+			fatal("Stop() did not return within 60s")
+		}
+	} // else: the dead cache's goroutine is parked in the hook for ever, Stop() cannot finish; it is abandoned
 	select {
 	case <-rec.barrier:
 	default:
 	}
 
-	coq := fmt.Sprintf("{| c_cfgs := [%s]; c_pre := [%s]; c_steps := [%s] |}", strings.Join(cfgs, "; "), strings.Join(pre, "; "), strings.Join(steps, ";\n "))
+	coq := fmt.Sprintf("{| c_cfgs := [%s]; c_pre := [%s]; c_steps := [%s]; c_panic := %s |}", strings.Join(cfgs, "; "), strings.Join(pre, "; "), strings.Join(steps, ";\n "), panicStep)
 	var tl []string
 	for t := range tags {
 		tl = append(tl, t)
@@ -722,6 +812,7 @@ func main() {
 	flag.Parse()
 	logrus.SetOutput(io.Discard)
 	logrus.SetLevel(logrus.PanicLevel)
+	logrus.AddHook(panics)
 	watchersyncer.MinResyncInterval = 0
 	watchersyncer.ListRetryInterval = 0
 	watchersyncer.WatchPollInterval = 0
